@@ -1,6 +1,7 @@
 /-
 C15 — Price limit rule: accepted prices stay in the band; other markets untouched.
 -/
+import PamsLemmas.SourceTie
 import PamsModel.Events
 import Mathlib.Algebra.Order.Field.Basic
 import Mathlib.Tactic.Linarith
@@ -119,5 +120,9 @@ theorem accepted_within_widened_band (p0 r p tick q : K) (hp0 : 0 < p0) (hr : 0 
 theorem nonvacuous : clip (300 : ℚ) (1/20) 400 = 315 ∧ clip (300 : ℚ) (1/20) 100 = 285 ∧
     clip (300 : ℚ) (1/20) 310 = 310 ∧ clip (300 : ℚ) (1/20) 315 = 315 := by
   refine ⟨?_, ?_, ?_, ?_⟩ <;> (rw [clip_eq]; norm_num [abs_of_nonneg, abs_of_neg])
+
+/-- (T) `PriceLimitRule.get_limited_price` in the current sources: `>=` between the absolute changes -/
+theorem source_clip_test :
+    Pams.Source.opsOf "PriceLimitRule.get_limited_price" = ["not in", "is", ">="] := by decide
 
 end Pams.C15
